@@ -483,20 +483,41 @@ fn invlpgb_run(s: u8, start: u64, end: u64, count_max: u16, pcid: Option<u16>, a
         macro_rules! go {
             ($S:ty) => {{
                 let rg = Page::<$S>::range(pg(start), pg(end));
-                let mut b = inv.build().pages(rg);
-                unsafe {
-                    if let Some(p) = pcid {
-                        b.pcid(Pcid::new(p).unwrap());
+                // the options may be set before or after the range is given
+                let before = ((start >> 12) ^ (start >> 21) ^ count_max as u64 ^ global as u64) & 1 == 1;
+                let mut b0 = inv.build();
+                if before {
+                    unsafe {
+                        if let Some(p) = pcid {
+                            b0.pcid(Pcid::new(p).unwrap());
+                        }
+                        if let Some(a) = asid {
+                            let _ = b0.asid(a);
+                        }
                     }
-                    if let Some(a) = asid {
-                        let _ = b.asid(a);
+                    if global {
+                        b0.include_global();
+                    }
+                    if fin {
+                        b0.final_translation_only();
                     }
                 }
-                if global {
-                    b.include_global();
-                }
-                if fin {
-                    b.final_translation_only();
+                let mut b = b0.pages(rg);
+                if !before {
+                    unsafe {
+                        if let Some(p) = pcid {
+                            b.pcid(Pcid::new(p).unwrap());
+                        }
+                        if let Some(a) = asid {
+                            let _ = b.asid(a);
+                        }
+                    }
+                    if global {
+                        b.include_global();
+                    }
+                    if fin {
+                        b.final_translation_only();
+                    }
                 }
                 let b = if nested { b.include_nested_translations() } else { b };
                 b.flush();
